@@ -114,7 +114,7 @@ impl<K: aead::generic_array::ArrayLength<u8>> KeyInit for SpyImpl<K> {
         let mut k = [0u8; 32];
         k[..key.len()].copy_from_slice(key);
         let s = spy();
-        s.news += 1;
+        s.news = s.news.wrapping_add(1);
         s.new_key = k;
         s.new_key_len = key.len();
         SpyImpl {
@@ -137,7 +137,7 @@ impl<K: aead::generic_array::ArrayLength<u8>> AeadInPlace for SpyImpl<K> {
         buffer: &mut [u8],
     ) -> Result<aead::Tag<Self>, aead::Error> {
         let s = spy();
-        s.encs += 1;
+        s.encs = s.encs.wrapping_add(1);
         s.last = record(&self.key, self.key_len, nonce, aad, buffer, &[0u8; 16]);
         // visible, invertible change of the buffer (constant trip count, length test inside)
         let blen = buffer.len();
@@ -162,7 +162,7 @@ impl<K: aead::generic_array::ArrayLength<u8>> AeadInPlace for SpyImpl<K> {
         tag: &aead::Tag<Self>,
     ) -> Result<(), aead::Error> {
         let s = spy();
-        s.decs += 1;
+        s.decs = s.decs.wrapping_add(1);
         s.last = record(&self.key, self.key_len, nonce, aad, buffer, tag);
         if s.dec_ok {
             let blen = buffer.len();
@@ -280,7 +280,7 @@ impl<const CAP: usize> AeadInPlace for IdealImpl<CAP> {
         buffer: &mut [u8],
     ) -> Result<aead::Tag<Self>, aead::Error> {
         let l = ideal();
-        l.encs += 1;
+        l.encs = l.encs.wrapping_add(1);
         let blen = buffer.len();
         let alen = aad.len();
         if blen > CAP || alen > IDEAL_AAD_CAP || l.n >= IDEAL_LOG_CAP {
@@ -335,7 +335,7 @@ impl<const CAP: usize> AeadInPlace for IdealImpl<CAP> {
         tag: &aead::Tag<Self>,
     ) -> Result<(), aead::Error> {
         let l = ideal();
-        l.decs += 1;
+        l.decs = l.decs.wrapping_add(1);
         let blen = buffer.len();
         let alen = aad.len();
         if blen > CAP || alen > IDEAL_AAD_CAP {
